@@ -73,6 +73,9 @@ inductive Policy where
   | readOnly                -- valid_read returns 1, valid_write returns 0
   | writeOnly               -- valid_read returns 0, valid_write returns 1
   | roPath (s : CStr)       -- everything allowed, except writing to exactly this path argument
+  | nested (g : String) (p : CStr) (thn : Policy)
+                            -- RE-ENTRANT master: valid_read / valid_write first call the file efun `g` on the path
+                            -- `p` themselves (consult an access list, log the request …), then answer like `thn`
   deriving Repr, DecidableEq
 
 /-- the master's answer to valid_write (`w = true`) / valid_read for `path` -/
@@ -88,8 +91,17 @@ def Policy.verdict (p : Policy) (w : Bool) (path : CStr) : Verdict :=
   | .readOnly => if w then .deny else .ok
   | .writeOnly => if w then .ok else .deny
   | .roPath s => if w ∧ path = s then .deny else .ok
+  | .nested _ _ thn => thn.verdict w path
 
 /-! ### events -/
+
+/-- events of a NESTED file efun call: one made by the master object from inside valid_read / valid_write while an
+    outer efun waits for the verdict.  `whoOk`: the master was asked in the name of the nested caller. -/
+inductive NEv where
+  | valid (w : Bool) (path : CStr) (whoOk : Bool) (op : String) (v : Verdict)
+  | fs (fn : String) (w : Bool) (path : CStr)
+  | note (s : String)
+  deriving Repr, DecidableEq
 
 inductive Ev where
   /-- unit style: `legal_path (s)` returned `v` -/
@@ -111,6 +123,12 @@ inductive Ev where
   /-- the master object of this run does not define valid_read / valid_write at all (`true`): as coded the
       driver then treats every path as approved and there is nothing to log -/
   | mode (masterAbsent : Bool)
+  /-- the editor asked the master where to save the buffer of a user who went net-dead
+      (get_save_file_name (stored name)) and was told `name` -/
+  | edsave (stored : CStr) (name : CStr)
+  /-- a nested efun call `g (args)` by `who` (the master, inside a consultation) with everything it did; it has
+      its OWN approvals: nothing it was granted licenses the outer call and vice versa -/
+  | nest (g : String) (who : String) (args : List CStr) (inner : List NEv)
   /-- anything else (not judged) -/
   | note (s : String)
   deriving Repr, DecidableEq
@@ -217,6 +235,32 @@ def approvalOf (w : Bool) (v : Verdict) (path : CStr) : Option Approval :=
 def okBy (fn : String) (w : Bool) (p : CStr) (a : Approval) : Bool :=
   specLegal a.path && covers fn a.path p && (if w then a.w else (!a.w || fn == "stat"))
 
+/-- is `op` an operation name the efun `g` may present to the master? -/
+def opAllowed (g op : String) : Bool :=
+  match opNames.find? (·.1 == g) with
+  | some (_, ops) => ops.contains op
+  | none => true
+
+/-- the oracle for a nested call: the same demands as for a top-level one, with its own set of approvals -/
+def nestStep (g : String) (st : List Approval × List Violation) (e : NEv) : List Approval × List Violation :=
+  match e with
+  | .valid w path whoOk op v =>
+    let bad := if opAllowed g op then st.2 else ⟨"wrong-op", s!"nested {g} asked the master as {op}"⟩ :: st.2
+    let bad := if whoOk then bad else ⟨"wrong-caller", s!"nested {g} asked the master in another object's name"⟩ :: bad
+    match approvalOf w v path with
+    | none => (st.1, bad)
+    | some a => (a :: st.1, bad)
+  | .fs fn w p =>
+    let bad := if absolute p then ⟨"fs-absolute", s!"nested {g}: {fn} {showP p}"⟩ :: st.2
+      else if !safe p then ⟨"fs-dotdot", s!"nested {g}: {fn} {showP p}"⟩ :: st.2
+      else st.2
+    if st.1.any (okBy fn w p) then (st.1, bad)
+    else (st.1, ⟨"fs-unmediated", s!"nested {g}: {fn} {if w then "w" else "r"} {showP p} without a matching approval"⟩ :: bad)
+  | .note _ => st
+
+def judgeNest (g : String) (inner : List NEv) : List Violation :=
+  (inner.foldl (nestStep g) ([], [])).2
+
 /-- a stored include directory that is empty, absolute or has a ".." component -/
 def badIncEntry : Option CStr → Bool
   | some d => !safe d || d = []
@@ -268,6 +312,12 @@ def judgeStep (s : JState) (e : Ev) : JState :=
       if s.approvals.any (okBy fn w p) then s
       else s.flag "fs-unmediated" s!"{s.efun}: {fn} {if w then "w" else "r"} {showP p} without a matching approval"
   | .mode b => { s with absent := b }
+  | .nest g _ _ inner => { s with bad := judgeNest g inner ++ s.bad }
+  | .edsave _ name =>
+    -- the approving authority named the file itself: that counts as a write approval of exactly that path (one
+    -- leading slash removed); like every approval it licenses nothing unless the path is legal
+    if s.efun == "ed" then { s with approvals := ⟨true, stripOneSlash name⟩ :: s.approvals }
+    else s.flag "edsave-outside-ed" s!"{s.efun}: save name {showP name}"
   | .note _ => s
 
 def judgeEv (evs : List Ev) : List Violation :=
